@@ -245,6 +245,15 @@ def step (line : String) : String :=
         | .err e => err e
         | .panic _ => "panic"
     | _, _, _, _ => "bad-op"
+  -- clientstate OP,OP,…: a fresh Client taken through connect-ok (c1) / connect-failed (c0) / close (x) / send (s)
+  | ["clientstate", ops] =>
+    let parse := fun (t : String) => if t = "c1" then some (Client.COp.connect true) else if t = "c0" then some (Client.COp.connect false)
+      else if t = "x" then some Client.COp.close else if t = "s" then some Client.COp.send else none
+    match (ops.splitOn ",").mapM parse with
+    | some os =>
+      let outs := (Client.crun Client.CState.fresh os).2
+      "ok " ++ ",".intercalate (outs.map fun o => match o with | .ok => "ok" | .err => "err" | .panic => "panic")
+    | none => "bad-op"
   | ["c18"] => c18Report
   | ["c19"] => c19Report
   | _ => "bad-op"
